@@ -816,7 +816,7 @@ func checkAccounting(rc *kit.RunCtx, w *world, specs []*txSpec, r *execResult, f
 			payer := cfg.eoas[s.from].name
 			exp[payer].balance.Sub(exp[payer].balance, afee)
 			if aok {
-				applyEffects(w, s, exp)
+				applyEffects(w, s, exp, afee)
 			}
 			for _, n := range sortedNames(exp) {
 				if !obsEqual(exp[n], a.post[n]) {
@@ -891,7 +891,7 @@ func fmtObs(o *acctObs) string {
 }
 
 // applyEffects: effects of a successful fee-paying transaction on observed accounts
-func applyEffects(w *world, s *txSpec, obs map[string]*acctObs) {
+func applyEffects(w *world, s *txSpec, obs map[string]*acctObs, afee *big.Int) {
 	payer := w.cfg.eoas[s.from].name
 	add := func(name string, v *big.Int) {
 		if o := obs[name]; o != nil {
@@ -918,6 +918,15 @@ func applyEffects(w *world, s *txSpec, obs map[string]*acctObs) {
 				v := big.NewInt(o.val)
 				add("score", new(big.Int).Neg(v))
 				add(w.recips[o.to%len(w.recips)].name, v)
+			case 'd':
+				// obs[payer] already has the fee taken off; at execution time it had not been charged yet
+				if po := obs[payer]; po != nil && afee != nil {
+					cur := new(big.Int).Add(po.balance, afee)
+					if amt := new(big.Int).Sub(cur, big.NewInt(o.val)); amt.Sign() > 0 {
+						add(payer, new(big.Int).Neg(amt))
+						add("score", amt)
+					}
+				}
 			}
 		}
 	}
